@@ -292,6 +292,11 @@ func (e *sEnv) ex(x ast.Expr) (*Ex, error) {
 		case token.MUL:
 			return mkProd(a, b), nil
 		case token.QUO:
+			if tv, ok := info.Types[x]; ok {
+				if bt, ok := tv.Type.Underlying().(*types.Basic); ok && bt.Info()&types.IsInteger != 0 {
+					return mkCall("idiv", a, b), nil
+				}
+			}
 			return mkDiv(a, b), nil
 		case token.REM:
 			return mkCall("imod", a, b), nil
